@@ -100,14 +100,14 @@ EXPLAIN.update({
 })
 UNCOVERED.update({
     "C01": ["tuple arities > 3 of choice/group (same macro body)", "any_ref / select_ref (need a borrowing input; same code shape as any / select)", "todo() (panics by design)", "unwrapped() (panics by design on None/Err)"],
-    "C02": ["drivers are bounded (<= 2 items): the unbounded statement is carried by the step contracts + lemma_count", "IntoIter / Flatten iterable adaptors", "String containers (String::push is std)"],
+    "C02": ["drivers are bounded (<= 2 items): the unbounded statement is carried by the step contracts + lemma_count", "the real Repeated/configure + collect::<Vec> composition is checked bounded (<= 2 items) with bounds of the full usize range", "IntoIter / Flatten iterable adaptors", "String containers (String::push is std)"],
     "C03": ["lazy(): bounded to 2 trailing tokens", "the identity of the primary error at top level is compared natively only (reading the error buffer is out of CBMC's reach)"],
     "C04": ["to_slice/ignored etc. are compared with their value-building form through a common specification, not by a two-run product"],
     "C05": ["error list contents compared by length under CBMC", "recovery inside folds: by composition only"],
-    "C06": ["Rich::merge (RichReason::flat_merge, the add_alt_err path of user-supplied errors) exhausts CBMC's memory (> 24 GB in every case split tried): not under contract; its twin on the add_alt path, Rich::merge_expected_found, is (bounded: one expectation per side)", "the real error types are proved with a bounded number of expectations per error (<= 2; <= 1 per side for merges), spans / found tokens / pattern kinds fully symbolic; Vec growth (realloc) is not exercised (lists are built with spare capacity)", "filter(): found token of a rejection is not asserted (the library reports none)"],
+    "C06": ["Rich::merge of two expected/found reasons (RichReason::flat_merge's list loop) exhausts CBMC's memory (> 24 GB in every case split tried): not under contract, and neither is Rich::merge with a user error on one side (tried in round 3: the same list loop is explored symbolically behind the boxed reason, > 15 min): which span a merged Rich error keeps is therefore not decided; its twin on the add_alt path, Rich::merge_expected_found, is under contract (bounded: one expectation per side)", "the real error types are proved with a bounded number of expectations per error (<= 2; <= 1 per side for merges), spans / found tokens / pattern kinds fully symbolic; Vec growth (realloc) is not exercised (lists are built with spare capacity)", "filter(): found token of a rejection is not asserted (the library reports none)"],
     "C07": ["foldr_with per-item spans", "IterInput/MappedInput empty-match clause is a recorded finding", "Stream/IoInput slices n/a"],
-    "C08": ["nested_delimiters (composition of proved combinators)", "skip strategies bounded to 2 rounds"],
-    "C09": ["pratt_go loop bounded (2 operands, stubs emit nothing)", "tuple tables of arity > 2", "prefix/postfix tables"],
+    "C08": ["nested_delimiters is a grammar built from combinators that are each under contract (recursive, delimited_by, or, repeated, and_is, none_of, map_with); the composition itself (real recursion through Rc/dyn plus two nested loops) is beyond the solver's time limit and is NOT checked: a change confined to how nested_delimiters assembles them is not detected", "skip strategies bounded to 2 rounds"],
+    "C09": ["pratt_go loop: bounded (against real infix operators: 2 operands; against the stub operator table: 2 operator applications, operands nest one level deep; stubs emit nothing)", "tuple tables of arity > 2", "prefix/postfix tables beyond the single-operator steps"],
     "C10": ["IoInput (BufReader/Seek)", "Graphemes (unicode-segmentation)", "Stream 512-item batch boundary", "bytes feature"],
     "C11": ["hashbrown::HashMap is replaced by an assumed finite-map contract (kani/hashmodel.rs, <= 3 bindings); the real table is exercised only natively", "distinct zero-sized memoized parsers at the same address share a memo key: recorded finding", "termination of a whole left-recursive parse: only the re-entry contract and the nesting bound (Verus lemma) are proved", "memoization presupposes that re-running a parser at a position gives the same outcome (context- and state-dependent parsers are outside the property's 'grammars')"],
     "C12": ["stack depth / stacker::maybe_grow (external)", "mutual recursion beyond one level is by induction over the forwarding contract", "define()'s panic message formatting (entered through the hook under Kani; the real define() is run natively)"],
